@@ -55,6 +55,13 @@ def gen_plan(seed, tier):
     if p is not None:
       break
     name = r.choice(ALL)
+  int_store = None
+  if r.random() < 0.15:
+    # integer-valued points kept in an integer dtype (e.g. uint8 image data)
+    desc = dict(desc, kind="grid", grid=r.choice([4, 9]))
+    int_store = r.choice(["uint8", "int8", "int16", "uint16", "int32"])
+    D = _data(desc)
+    p = params_for(name, r, D) or p
   fault_run = r.random() < 0.45
   pre = "store" if fault_run else r.choice(["store", "ndarray", "list"])
   ops = []
@@ -66,6 +73,8 @@ def gen_plan(seed, tier):
               repeats=r.random() < 0.5, m=r.randint(1, 9))
     if r.random() < 0.35:
       sp["pattern"] = r.choice(["sorted", "sorted_gap", "sorted_gap", "const", "arange", "reversed"])
+    if r.random() < 0.25:
+      sp["layout"] = "F"        # column-major 2-D indicator array (e.g. np.array([left, right]).T)
     return sp
 
   def maybe_fault():
@@ -74,7 +83,8 @@ def gen_plan(seed, tier):
     return None
 
   ops.append(dict(op="fit", idx=dict(seed=r.randrange(10**6), dtype=r.choice(INT_DTYPES),
-                                     repeats=r.random() < 0.15, order=r.random() < 0.7),
+                                     repeats=r.random() < 0.15, order=r.random() < 0.7,
+                                     layout=r.choice([None, None, "F"])),
                   form="indices", fault=maybe_fault() if r.random() < 0.4 else None))
   while len(ops) < n_ops:
     k = r.random()
@@ -99,15 +109,18 @@ def gen_plan(seed, tier):
         meths += ["predict", "decision_function", "score"]
       ops.append(dict(op="query", method=r.choice(meths), idx=idx_spec(), form=form,
                       fault=maybe_fault()))
-  return dict(run_seed=seed, dataset=desc, cls=name, params=p, pre=pre, ops=ops)
+  return dict(run_seed=seed, dataset=desc, cls=name, params=p, pre=pre, ops=ops, int_store=int_store)
 
 
 # ------------------------------------------------------------------ execution
 
-def _cast(idx, dtype):
+def _cast(idx, dtype, layout=None):
   if dtype == "list":
     return idx.tolist()
-  return idx.astype(dtype)
+  out = idx.astype(dtype)
+  if layout == "F" and out.ndim == 2:
+    out = np.asfortranarray(out)
+  return out
 
 
 def _fit_indices(name, D, spec):
@@ -147,7 +160,7 @@ def _fit_indices(name, D, spec):
   if spec.get("repeats"):
     o = np.concatenate([o, o[rs.randint(0, len(o), size=max(1, len(o) // 5))]])
   T = T[o]
-  ind = _cast(T, spec["dtype"])
+  ind = _cast(T, spec["dtype"], spec.get("layout"))
   formed = D.S[T]
   if kind == "pairs":
     y = D.pairs_y[o]
@@ -185,7 +198,7 @@ def _query_indices(name, method, D, spec):
         idx[k_, j] = idx[k_ - 1, j]     # sorted, a repeat, span == length
   if t == 1:
     idx = idx[:, 0]
-  ind = _cast(idx, spec["dtype"])
+  ind = _cast(idx, spec["dtype"], spec.get("layout"))
   formed = D.S[idx]
   if method == "score" and ts == 2:
     y = np.where(D.yS[idx[:, 0]] == D.yS[idx[:, 1]], 1, -1)
@@ -234,6 +247,11 @@ def run_plan(plan):
   cov = collections.Counter()
   events = []
   D = make_data(plan["dataset"])
+  if plan.get("int_store"):
+    # the formed data must be what the preprocessor yields: a nested list of
+    # Python ints becomes int64, an ndarray / store keeps its integer dtype
+    D.S = D.S.astype("int64" if plan["pre"] == "list" else plan["int_store"])
+    cov["integer_store"] += 1
   name = plan["cls"]
   R = Resolver()
   pa = R.params(plan["params"])
@@ -252,7 +270,7 @@ def run_plan(plan):
   compared = 0
   fired_total = 0
   violation = None
-  shape = [name, plan["pre"]]
+  shape = [name, plan["pre"], str(plan.get("int_store"))]
 
   def calls():
     return len(store.calls) if store is not None else None
